@@ -4,7 +4,11 @@ include / exclude filters, unpicklable subsets, umasks, reader queries."""
 from . import common as cm
 
 NAMES = ["a", "b", "c", "secret", "_u", "__dd", "é", "x1", "data"]
-INVALID_NAMES = ["1bad", "class", "a b", "", "a-b", " a", "b ", "9", "for"]
+# names at the edges of "valid identifier": soft keywords (valid names), private / dunder-shaped names,
+# non-ASCII identifiers (combining marks; a ligature that the compiler NFKC-normalises to 'fi'), digits
+EDGE_NAMES = ["type", "match", "case", "_", "_private", "__dunder__", "\u0928\u093e\u092e", "\ufb01", "fi", "a2b", "\u00e9t\u00e9", "x\u0301"]
+# not valid variable names: hard keywords, non-identifiers, the empty string, blanks
+INVALID_NAMES = ["1bad", "class", "a b", "", "a-b", " a", "b ", "9", "for", "None", "True", "lambda", "await", "a.b", "\u00b2", "x!"]
 PICKLABLE_KINDS = ["int", "str", "list", "dict", "tuple", "box", "none", "float", "bytes", "nested"]
 UNPICKLABLE_KINDS = ["lambda", "gen", "lock", "badreduce", "badreduce_t", "localcls"]
 MODULES = [("m0", "m0.py"), ("m1", "m1.py"), ("pkg.m0", "pkg/m0.py"), ("pkg.m1", "pkg/m1.py"),
@@ -47,6 +51,8 @@ class Prog:
     def locals_block(self, lo=0, hi=4):
         r = self.r
         names = r.sample(NAMES, r.randint(lo, hi))
+        if hi and r.random() < .35:
+            names += r.sample(EDGE_NAMES, r.randint(1, 2))
         return [(n, self.value()) for n in names]
 
     # -- source emission
@@ -354,6 +360,8 @@ def gen_names(r, allow_invalid=True):
     for _ in range(n):
         if allow_invalid and r.random() < .15:
             out.append(r.choice(INVALID_NAMES))
+        elif r.random() < .3:
+            out.append(r.choice(EDGE_NAMES))
         else:
             out.append(r.choice(NAMES + ["self", "n", "inner", "e", "V", "fn", "zz"]))
     return out
@@ -398,9 +406,9 @@ def gen_queries(r, nframes_hint):
         k = r.random()
         idx = None if r.random() < .45 else r.choice([0, 1, 1, 2, 3, nframes_hint, nframes_hint + 1, -1, 5])
         if k < .3:
-            qs.append(["vars", r.choice(NAMES + ["self", "n", "zz", "inner"]), idx])
+            qs.append(["vars", r.choice(NAMES + EDGE_NAMES + ["self", "n", "zz", "inner"]), idx])
         elif k < .6:
-            names = [r.choice(NAMES + ["self", "n", "zz"]) for _ in range(r.randint(0, 3))]
+            names = [r.choice(NAMES + EDGE_NAMES + ["self", "n", "zz"]) for _ in range(r.randint(0, 3))]
             qs.append(["vars", names, idx])
         elif k < .9:
             qs.append(["meta", r.choice(FRAME_FIELDS + EXC_FIELDS + ["bogus"]), idx])
